@@ -23,6 +23,8 @@ type NDOp struct {
 	Mode string `json:"mode"` // pid | name | alias
 	Size int    `json:"size"` // payload size class
 	Typ  string `json:"typ"`  // bytes | string | struct | map | int
+	// ErrReply (call, callimportant): the receiver answers with SendResponseError and an error of its own
+	ErrReply bool `json:"err_reply,omitempty"`
 }
 
 type NDSender struct {
@@ -177,6 +179,7 @@ func genNDCase(r *simkit.Rand, tier string, fifo bool) *NDCase {
 				}
 			} else {
 				op.Kind = simkit.Pick(r, "send", "send", "important", "important", "call", "callimportant")
+				op.ErrReply = (op.Kind == "call" || op.Kind == "callimportant") && r.Chance(0.3)
 				if r.Chance(0.1) {
 					op.To = len(c.Receivers) // nobody
 				}
@@ -345,11 +348,13 @@ func runDelivery(prop string, e *simkit.Env, c *NDCase) *ndRun {
 	for i, mb := range c.Receivers {
 		i := i
 		h := &Hooks{Name: fmt.Sprintf("rcv%d", i), Env: e, Slow: true}
+		errReply := false
 		note := func(kind string, from gen.PID, m any) (int, bool) {
 			msg, ok := m.(ndMsg)
 			if !ok {
 				return 0, false
 			}
+			errReply = false
 			rec := ndRecv{rcv: i, id: msg.ID, from: from, kind: kind, step: e.Step()}
 			r.mu.Lock()
 			var op *NDOp
@@ -363,6 +368,7 @@ func runDelivery(prop string, e *simkit.Env, c *NDCase) *ndRun {
 				// the send record is created before the send is issued
 				rec.problem = "unknown message id"
 			} else {
+				errReply = op.ErrReply
 				want := ndPayload(msg.ID, op.Typ, op.Size)
 				rec.ok = reflect.DeepEqual(want, msg.Data)
 				if !rec.ok {
@@ -390,6 +396,12 @@ func runDelivery(prop string, e *simkit.Env, c *NDCase) *ndRun {
 		h.Call = func(p *Probe, from gen.PID, ref gen.Ref, req any) (any, error) {
 			id, ok := note("call", from, req)
 			if !ok {
+				return nil, nil
+			}
+			if errReply {
+				if err := p.SendResponseError(from, ref, fmt.Errorf("refused-%d", id)); err != nil {
+					e.Logf("rcv%d SendResponseError id=%d -> %v", i, id, err)
+				}
 				return nil, nil
 			}
 			return ndMsg{ID: -id, Data: int64(id)}, nil
